@@ -14,6 +14,14 @@ for d in sorted(glob.glob(os.path.join(ROOT, 'seeded', '*'))):
         x = ' '.join(str(x).split()).replace('|', '\\|')
         return x[:n] + ('…' if len(x) > n else '')
     caught = 'no' if not cv.get('caught') else ('yes, concrete input' if cv.get('caught_with_concrete_input') else 'yes, no-failing-input-found')
+    first = (m.get('earlier_verifications') or [None])[0]
+    if first is not None and not (first.get('caught') and first.get('caught_with_concrete_input')) and cv.get('caught_with_concrete_input'):
+        caught += ' (first run: %s; check strengthened)' % ('missed' if not first.get('caught') else 'no-failing-input-found')
+    notes = [k for k in m if k.startswith('note_after_fix_')]
+    if notes and not cv.get('caught'):
+        caught = 'harmless on HEAD since fix %s; caught against the pre-fix base (see meta.json)' % notes[0][len('note_after_fix_'):]
+    if not m.get('summary') and not os.path.exists(os.path.join(d, 'patch.diff')):
+        caught += ' (deliverables lost before filing; not counted)'
     rows.append('| %s | %s | %s | %s | %s | %s | %s |' % (
         os.path.basename(d), m.get('breaks_property', m.get('property', '?')), cell(m.get('summary', '')), cell(m.get('what_it_needs_to_manifest', ''), 200),
         'yes' if cv.get('tests_pass_with_change') else 'NO', caught, cell('%s: %s' % (rep.get('signature', ''), rep.get('describe', '')), 200)))
